@@ -525,7 +525,41 @@ pub fn gen_keystate(seed: u64, thorough: bool, out: &mut Out) {
 }
 
 /// C12: outputs depend on (server key, tag, input) only; blinding is fresh and removable
+/// Two servers that hold the same key (the only public way: one imports the other's exported state) give the same
+/// output for every registered, unpunctured tag and the same refusal for every other tag - after punctures that leave
+/// retained prefixes of every length and shape (non-palindromic ones in particular).
+fn leader_follower(seed: u64, thorough: bool, out: &mut Out) {
+  for k in 0..(if thorough { 12u64 } else { 3 }) {
+    let mut r = Prng::for_case(seed, "leader-follower", k);
+    let mds: Vec<u8> = (0..=255u8).collect();
+    let mut leader = Server::new(mds.clone()).expect("server");
+    let punct: Vec<u8> = match k { 0 => vec![3], 1 => vec![6, 1, 200], 2 => vec![0, 255, 13, 128], _ => (0..(1 + r.below(6))).map(|_| r.below(256) as u8).collect() };
+    for &md in &punct {
+      let _ = guarded(|| leader.puncture(md));
+    }
+    let mut follower = Server::new(vec![9, 200]).expect("server");
+    import_into(&mut follower, &export(&leader));
+    let (bp, _) = blind(b"leader and follower");
+    let pt = Point::from(&bp[..]);
+    let mut verdict: Result<(), String> = Ok(());
+    for md in 0..=255u8 {
+      let a = guarded(|| leader.eval(&pt, md, false)).map(|x| x.ok().map(|e| e.output.as_bytes().to_vec()));
+      let b = guarded(|| follower.eval(&pt, md, false)).map(|x| x.ok().map(|e| e.output.as_bytes().to_vec()));
+      if a != b && verdict.is_ok() {
+        verdict = Err(format!("tag {}: same server key (imported after punctures {:?}), same input, different answer from the two servers", md, punct));
+      }
+      if punct.contains(&md) && a != Some(None) && verdict.is_ok() {
+        verdict = Err(format!("punctured tag {} is still answered", md));
+      }
+    }
+    out.case(format!("selfcheck c12 leader-follower {}", k), "ok".to_string(), verdict);
+  }
+}
+
 pub fn gen_c12(seed: u64, thorough: bool, only: Option<u64>, out: &mut Out) {
+  if only.is_none() {
+    leader_follower(seed, thorough, out);
+  }
   let n: u64 = if thorough { 120 } else { 12 };
   let mut finals: BTreeMap<Vec<u8>, String> = BTreeMap::new();
   for gi in 0..n {
@@ -748,7 +782,66 @@ fn verify_obs(pk: &ServerPublicKey, inp: &[u8], outp: &[u8], proof: Option<&[u8]
 }
 
 /// C13: completeness, rejection of every single-component replacement, fresh commitments
+/// A server that has already served verifiable requests under its own key and then takes over another server's key
+/// state (key sync of a warm follower): every later evaluation is the leader's, and its proof verifies under the
+/// (imported) public key - before and after restoring key and proof from their binary forms.
+fn warm_follower(out: &mut Out) {
+  for (k, mds) in [vec![0u8, 1, 200], vec![7u8], vec![3, 4, 5, 255]].iter().enumerate() {
+    let leader = Server::new(mds.clone()).expect("server");
+    let mut follower = Server::new(mds.clone()).expect("server");
+    let (bp, _) = blind(b"warm follower");
+    let pt = Point::from(&bp[..]);
+    let mut verdict: Result<(), String> = Ok(());
+    // warm up: verifiable and plain requests for every tag under the follower's own key (twice)
+    for _ in 0..2 {
+      for &md in mds {
+        match guarded(|| follower.eval(&pt, md, true)) {
+          Some(Ok(ev)) => {
+            if guarded(|| Client::verify(&follower.get_public_key(), &pt, &ev, md)) != Some(true) {
+              verdict = Err(format!("an honest evaluation for tag {} does not verify before the key sync", md));
+            }
+          }
+          _ => verdict = Err(format!("no evaluation for registered tag {} before the key sync", md)),
+        }
+        let _ = guarded(|| follower.eval(&pt, md, false));
+      }
+    }
+    import_into(&mut follower, &export(&leader));
+    let pk = follower.get_public_key();
+    if pk.serialize_to_bincode().ok() != leader.get_public_key().serialize_to_bincode().ok() && verdict.is_ok() {
+      verdict = Err("after the key sync the follower advertises another public key than the leader".to_string());
+    }
+    for &md in mds {
+      let lead = guarded(|| leader.eval(&pt, md, false)).and_then(|r| r.ok()).map(|e| e.output.as_bytes().to_vec());
+      match guarded(|| follower.eval(&pt, md, true)) {
+        Some(Ok(ev)) => {
+          let restored_pk = ServerPublicKey::load_from_bincode(&pk.serialize_to_bincode().unwrap()).ok();
+          let restored_ev = ev.proof.as_ref().and_then(|p| p.serialize_to_bincode().ok()).and_then(|b| ProofDLEQ::load_from_bincode(&b).ok()).map(|p| Evaluation { output: ev.output.clone(), proof: Some(p) });
+          if Some(ev.output.as_bytes().to_vec()) != lead && verdict.is_ok() {
+            verdict = Err(format!("after the key sync the follower's answer for tag {} is not the leader's", md));
+          } else if guarded(|| Client::verify(&pk, &pt, &ev, md)) != Some(true) && verdict.is_ok() {
+            verdict = Err(format!("an honest verifiable evaluation for tag {} issued after a key sync by a server that had served under its own key before is rejected", md));
+          } else if let (Some(rpk), Some(rev)) = (restored_pk, restored_ev) {
+            if guarded(|| Client::verify(&rpk, &pt, &rev, md)) != Some(true) && verdict.is_ok() {
+              verdict = Err(format!("tag {}: evaluation and public key restored from their binary forms do not verify after a key sync", md));
+            }
+          }
+        }
+        _ => {
+          if verdict.is_ok() {
+            verdict = Err(format!("no verifiable evaluation for registered tag {} after the key sync", md));
+          }
+        }
+      }
+    }
+    out.case(format!("selfcheck c13 warm-follower {}", k), "ok".to_string(), verdict);
+  }
+}
+
 pub fn gen_c13(seed: u64, thorough: bool, only: Option<u64>, out: &mut Out) {
+  if only.is_none() {
+    warm_follower(out);
+  }
   let n: u64 = if thorough { 60 } else { 6 };
   for gi in 0..n {
     if only.map_or(false, |o| o != gi) {
